@@ -35,6 +35,69 @@ def check_rt2(n: int, bits: int) -> bool:
     return roundtrip(data)
 
 
+def check_rt2_a(n: int, bits: int) -> bool:
+    """all strings of length n <= 8 over a 2-letter alphabet
+    pre: 0 <= n <= 8 and 0 <= bits < 256
+    post: _ == True
+    """
+    n = pin(n, 9)
+    data = bytes(97 + ((pin((bits >> k) & 1, 2))) for k in range(n))
+    return roundtrip(data)
+
+
+def _rt2_fixed(n, bits, top):
+    data = bytes(97 + ((pin((bits >> k) & 1, 2))) for k in range(n - len(top))) + bytes(97 + t for t in top)
+    return roundtrip(data)
+
+
+def check_rt2_b0(bits: int) -> bool:
+    """all strings of length 9 over a 2-letter alphabet ending in a
+    pre: 0 <= bits < 256
+    post: _ == True
+    """
+    return _rt2_fixed(9, bits, [0])
+
+
+def check_rt2_b1(bits: int) -> bool:
+    """all strings of length 9 over a 2-letter alphabet ending in b
+    pre: 0 <= bits < 256
+    post: _ == True
+    """
+    return _rt2_fixed(9, bits, [1])
+
+
+def check_rt2_c0(bits: int) -> bool:
+    """length 10 ending in aa
+    pre: 0 <= bits < 256
+    post: _ == True
+    """
+    return _rt2_fixed(10, bits, [0, 0])
+
+
+def check_rt2_c1(bits: int) -> bool:
+    """length 10 ending in ab
+    pre: 0 <= bits < 256
+    post: _ == True
+    """
+    return _rt2_fixed(10, bits, [0, 1])
+
+
+def check_rt2_c2(bits: int) -> bool:
+    """length 10 ending in ba
+    pre: 0 <= bits < 256
+    post: _ == True
+    """
+    return _rt2_fixed(10, bits, [1, 0])
+
+
+def check_rt2_c3(bits: int) -> bool:
+    """length 10 ending in bb
+    pre: 0 <= bits < 256
+    post: _ == True
+    """
+    return _rt2_fixed(10, bits, [1, 1])
+
+
 def check_rt3(a: int, b: int, c: int, d: int, e: int, f: int, n: int) -> bool:
     """all strings of length n <= 6 over a 3-letter alphabet
     pre: 0 <= n <= 6 and 0 <= a < 3 and 0 <= b < 3 and 0 <= c < 3 and 0 <= d < 3 and 0 <= e < 3 and 0 <= f < 3
